@@ -56,6 +56,9 @@ class C2Beacon(AbstractC2, discriminator="c2-beacon"):
     def __init__(self, **kwargs):
         kwargs["name"] = "c2-beacon"
         super().__init__(**kwargs)
+        if self.config.c2_server_ip_address is not None:
+            # the configured C2 server is the one the beacon talks to (the option used to be stored and never applied)
+            self.c2_remote_connection = IPv4Address(self.config.c2_server_ip_address)
 
     @property
     def _host_terminal(self) -> Optional[Terminal]:
